@@ -439,7 +439,7 @@ def summarise_dist(d):
 
 
 def run_evaldiff(ctx, profiles, ncases, tier, on_crash=None, variants=("o", "u", "r"), overrides=(), nevrun=None,
-                 shrink_max=3, timeout=10):
+                 shrink_max=3, timeout=10, shrink_budget_s=45):
     """Returns dict(c02=[...], c08=[...], crashes=[...], rejected=[...], harness=[...], evaluations,
     distinct_nontrivial, distribution (per profile), throughput...).  Reporting is left to the caller
     (checks/c02.py, checks/c08.py) except for nothing: this function does not touch ctx.violations."""
@@ -497,7 +497,7 @@ def run_evaldiff(ctx, profiles, ncases, tier, on_crash=None, variants=("o", "u",
                 break
             if not c.get("ast"):
                 continue
-            m = shrink(nevrun, tmp, c, want_crash=crash)
+            m = shrink(nevrun, tmp, c, want_crash=crash, budget_s=shrink_budget_s)
             done += 1
             if m is not None:
                 c["minimised"] = m
